@@ -109,21 +109,47 @@ fn check_small(case: &Case, l: &mut Local) -> Verdict {
     Verdict::Pass { nontrivial }
 }
 
+fn gen_flag(src: &mut Src, _t: Tier) -> Case {
+    let v = super::c01::flag_slice();
+    v[(src.raw() as usize).min(v.len() - 1)].clone()
+}
+
+/// the flag slice of C01 (i, m, s x legacy/u) x all haystacks over {a, A, LF} up to length 3 x starts 0, 1, len+1
+fn check_flag(case: &Case, l: &mut Local) -> Verdict {
+    static HAYS: std::sync::OnceLock<Vec<String>> = std::sync::OnceLock::new();
+    let hays = HAYS.get_or_init(|| all_strings(&[0x61, 0x41, 0x0A], 3));
+    let mut nontrivial = false;
+    for h in hays {
+        for s in [0usize, 1, h.len() + 1] {
+            let c = Case { hay: h.clone(), start: s, ..case.clone() };
+            match check(&c, l) {
+                Verdict::Fail(m) => return Verdict::Fail(format!("on \"{}\" from {}: {}", show_str(h), s, m)),
+                Verdict::Pass { nontrivial: n } => nontrivial |= n,
+                _ => {}
+            }
+        }
+    }
+    Verdict::Pass { nontrivial }
+}
+
+pub static VF: Variant = Variant { name: "exhaustive_flag_slice", choice_len: 1, gen: gen_flag, check: check_flag };
 pub static VX: Variant = Variant { name: "exhaustive_small_patterns", choice_len: 1, gen: gen_small, check: check_small };
 pub static V: Variant = Variant { name: "ascii_vs_utf8", choice_len: 400, gen, check };
 
 pub fn variants() -> Vec<&'static Variant> {
-    vec![&V, &VX]
+    vec![&V, &VX, &VF]
 }
 
 pub fn run(ctx: &Ctx) -> i32 {
     let slice = super::c01::small_slice(true);
     let part: Vec<Case> = slice.iter().enumerate().filter(|(i, _)| ctx.tier == Tier::Thorough || i % 8 == 0).map(|(_, c)| c.clone()).collect();
     ctx.run_list(&VX, &part);
+    let fpart: Vec<Case> = super::c01::flag_slice().iter().enumerate().filter(|(i, _)| ctx.tier == Tier::Thorough || i % 4 == 0).map(|(_, c)| c.clone()).collect();
+    ctx.run_list(&VF, &fpart);
     ctx.run_variant(&V, ctx.scale(800_000, 12_000_000));
     ctx.finish(
         "exploration",
-        "(bounded-exhaustive) the small-pattern grammar of C01 (an eighth of it in the quick tier) under flags -, i, iu x all haystacks in {a,b}^<=4 x starts 0, 1, len+1; plus random ES patterns (incl. non-ASCII literals, U+017F/U+212A fold partners, surrogate escapes, \\p) x ASCII haystacks over all 128 bytes x every start <= len+1; both executors, both pipelines; oracle = differential find_from_ascii vs find_from. Non-trivial = a match exists and the pattern mentions a non-ASCII character or uses i.",
+        "(bounded-exhaustive) the small-pattern grammar of C01 (an eighth of it in the quick tier) under flags -, i, iu x all haystacks in {a,b}^<=4 x starts 0, 1, len+1; the flag slice of C01 (all i, m, s x legacy/u sets; a quarter of it in the quick tier) x all haystacks over {a, A, LF} up to length 3; plus random ES patterns (incl. non-ASCII literals, U+017F/U+212A fold partners, surrogate escapes, \\p) x ASCII haystacks over all 128 bytes x every start <= len+1; both executors, both pipelines; oracle = differential find_from_ascii vs find_from. Non-trivial = a match exists and the pattern mentions a non-ASCII character or uses i.",
         &["fuel hook cuts runaway searches (counted, never judged)"],
     )
 }
